@@ -360,7 +360,7 @@ func check(c Case) (r pbt.Result) {
 				}
 				got := decodeRaw(m.typ, size, raw)
 				for i := range m.vals {
-					if got[i] != m.vals[i] {
+					if !eqv(got[i], m.vals[i]) {
 						r.Failf("op %d (%s): dataset %s (file %d) element %d holds %v, model %v (only the addressed region may change)", step, what, p, fi, i, got[i], m.vals[i])
 						return false
 					}
@@ -378,7 +378,7 @@ func check(c Case) (r pbt.Result) {
 				}
 				un := v.Unroll()
 				for i := range m.vals {
-					if un[i] != m.vals[i] {
+					if !eqv(un[i], m.vals[i]) {
 						r.Failf("op %d (%s): Load of %s element %d = %v, model %v", step, what, p, i, un[i], m.vals[i])
 						return false
 					}
@@ -421,7 +421,20 @@ func check(c Case) (r pbt.Result) {
 					r.Failf("op %d: create %s %v failed: %v", si, op.Path, op.Shape, err)
 					return
 				}
-				f.ds[op.Path] = &mds{typ: op.Typ, shape: op.Shape, vals: make([]float64, vm.Product(op.Shape))}
+				nd := &mds{typ: op.Typ, shape: op.Shape, vals: make([]float64, vm.Product(op.Shape))}
+				// the initial content of a new dataset is not part of the property: the library's default fill (0) or
+				// the fill value handed to Create (NaN for float64 here, 0 otherwise) are both accepted, uniformly
+				if size, _, raw, ok := hdf5.FakeRaw(fn, op.Path); ok && !intTyp(op.Typ) {
+					got := decodeRaw(op.Typ, size, raw)
+					for i, v := range got {
+						if !(v == 0 || (op.Typ == "float64" && math.IsNaN(v))) || (i > 0 && math.IsNaN(v) != math.IsNaN(got[0])) {
+							r.Failf("op %d: new dataset %s element %d holds %v (neither the default fill nor the fill value)", si, op.Path, i, v)
+							return
+						}
+						nd.vals[i] = v
+					}
+				}
+				f.ds[op.Path] = nd
 				f.addPath(op.Path)
 			}
 			f.exists = true
@@ -536,7 +549,7 @@ func check(c Case) (r pbt.Result) {
 			want := vm.NewRoot(cur.vals, cur.shape).Slice(loc, dims, step).Values()
 			got := v.Unroll()
 			for i := range want {
-				if got[i] != want[i] {
+				if !eqv(got[i], want[i]) {
 					r.Failf("op %d: Load(%v) of %s element %d = %v, the in-memory slice has %v", si, op.Sel, op.Path, i, got[i], want[i])
 					return
 				}
@@ -584,6 +597,9 @@ func check(c Case) (r pbt.Result) {
 	}
 	return
 }
+
+// eqv: equal values, NaN equal to NaN (a dataset may start filled with NaN).
+func eqv(a, b float64) bool { return a == b || (math.IsNaN(a) && math.IsNaN(b)) }
 
 func hasCompress(ops []Op) bool {
 	for _, o := range ops {
@@ -786,11 +802,17 @@ func checkConc(c ConcCase) (r pbt.Result) {
 			return
 		}
 	}
+	// whatever a new dataset starts with (default fill or the fill value) is each worker's starting model
+	initial := make([][]float64, w)
+	for i := 0; i < w; i++ {
+		size, _, raw, _ := hdf5.FakeRaw(fn, path(i))
+		initial[i] = decodeRaw(c.Types[i], size, raw)
+	}
 	for i := 0; i < w; i++ {
 		go func(i int) {
 			defer func() { done <- i }()
 			typ, shape := c.Types[i], c.Shapes[i]
-			model := make([]float64, vm.Product(shape))
+			model := append([]float64(nil), initial[i]...)
 			cnt := 1000 * (i + 1)
 			for si, op := range c.Ops[i] {
 				switch op.Kind {
@@ -830,7 +852,7 @@ func checkConc(c ConcCase) (r pbt.Result) {
 					}
 					got := arr.Wrap(typ, lv).Unroll()
 					for k := range model {
-						if got[k] != model[k] {
+						if !eqv(got[k], model[k]) {
 							errs[i] = fmt.Sprintf("worker %d op %d: element %d of its own dataset reads %v, it wrote %v (another caller interfered)", i, si, k, got[k], model[k])
 							return
 						}
